@@ -28,6 +28,8 @@ type runner struct {
 	prop string
 	tier string
 	r    *prng.Rng
+	// the bytes the previous marshal case produced (C05: contents of a "recycled" destination buffer)
+	recycled []byte
 }
 
 func safeCall(f func()) (panicMsg string) {
@@ -348,9 +350,91 @@ func (rn *runner) marshalCase(t *Target, name string, ref *dynamicpb.Message, la
 		} else if !proto.Equal(got, ref) {
 			outcome = "differs"
 			Violation("C05", "marshal", "reference-differs/"+diffSig(ref, got), "the reference runtime decodes Marshal() output to a different message (value or presence)", desc, trunc(fmt.Sprint(ref), 300), trunc(fmt.Sprint(got), 300)+" bytes="+trunc(hx(b), 200))
+		} else if o := rn.marshalToDirty(t, name, fm, ref, nilEnt, desc); o != "" {
+			outcome = o
 		}
+		rn.recycled = append(rn.recycled[:0], b...)
 	}
 	Count("marshal", fmt.Sprint(desc), outcome, len(b), len(b) > 0)
+}
+
+// marshalToDirty (C05): the generated MarshalTo is the other way the generated code produces "the bytes of
+// Marshal" — into a buffer the CALLER brings, which in every realistic use (buffer pool, scratch buffer, ring
+// buffer) held other data before. Whatever the buffer held, what MarshalTo leaves in dest[:Size()] must decode,
+// by the reference runtime, to the message. Fills: all-ones, 0x01 (a stale byte that is a valid one-byte varint /
+// bool / length), 0x7f, and the bytes of the previous case's output followed by 0x5a (a recycled buffer); the
+// buffer is longer than Size() so that dest is a prefix of a larger scratch area.
+func (rn *runner) marshalToDirty(t *Target, name string, fm FM, ref *dynamicpb.Message, nilEnt *nilMapEntry, desc map[string]interface{}) string {
+	fills := []struct {
+		what string
+		fill func(buf []byte)
+	}{
+		{"0xff", func(buf []byte) {
+			for i := range buf {
+				buf[i] = 0xff
+			}
+		}},
+		{"0x01", func(buf []byte) {
+			for i := range buf {
+				buf[i] = 0x01
+			}
+		}},
+		{"0x7f", func(buf []byte) {
+			for i := range buf {
+				buf[i] = 0x7f
+			}
+		}},
+		{"the previous output, then 0x5a", func(buf []byte) {
+			n := copy(buf, rn.recycled)
+			for i := n; i < len(buf); i++ {
+				buf[i] = 0x5a
+			}
+		}},
+	}
+	var rejected func()
+	for _, f := range fills {
+		var dest []byte
+		var terr error
+		var sz int
+		if p := safeCall(func() {
+			sz = fm.Size()
+			scratch := make([]byte, sz+8)
+			f.fill(scratch)
+			dest = scratch[:sz]
+			terr = fm.MarshalTo(dest)
+		}); p != "" || terr != nil {
+			return "" // C04's business
+		}
+		if f.what == "0xff" {
+			// correspondence: the model's MarshalTo overwrites the whole buffer (C05.marshalTo_overwrites_any_buffer)
+			modelMarshalTo(t.desc(name), ref, nilEnt, sz, dest)
+		}
+		d2 := map[string]interface{}{"history": "Size(); MarshalTo(dest) with dest = scratch[:Size()], scratch pre-filled with " + f.what}
+		for k, v := range desc {
+			d2[k] = v
+		}
+		got, derr := t.toDyn(name, dest)
+		if derr != nil {
+			if rejected == nil {
+				d, g := d2, derr.Error()+" bytes="+trunc(hx(dest), 200)
+				rejected = func() {
+					Violation("C05", "marshal", "marshalto-dirty-buffer/reference-rejects/"+sigOf(ref), "the reference runtime cannot decode what the generated MarshalTo() wrote into a buffer that held other data before (a byte of the encoding was not stored)", d, "", g)
+				}
+			}
+			continue
+		}
+		if !proto.Equal(got, ref) {
+			// the most telling witness: well-formed output that means something else
+			Violation("C05", "marshal", "marshalto-dirty-buffer/reference-differs/"+diffSig(ref, got), "the reference runtime decodes what the generated MarshalTo() wrote into a buffer that held other data before to a different message (value or presence): a byte of the encoding was not stored, the stale one shows through", d2, trunc(fmt.Sprint(ref), 300), trunc(fmt.Sprint(got), 300)+" bytes="+trunc(hx(dest), 200))
+			return "marshalto-dirty-differs"
+		}
+	}
+	if rejected != nil {
+		rejected()
+		return "marshalto-dirty-not-decodable"
+	}
+	Extra("marshalto-into-dirty-buffers-decoded-by-reference", len(fills))
+	return ""
 }
 
 func sigOf(ref protoreflect.Message) string {
@@ -447,6 +531,14 @@ func singleFieldMessages(md protoreflect.MessageDescriptor, emptyNested bool, yi
 		}
 		return protoreflect.ValueOfMessage(minimalMessage(d))
 	}
+	// nestedK: the k-th value of a message-typed position — minimal for odd k, for even k a message with every
+	// scalar field set (a nested message that has a size, also when it is the only / the last thing written)
+	nestedK := func(d protoreflect.MessageDescriptor, k int) protoreflect.Value {
+		if emptyNested || k%2 == 1 {
+			return nested(d)
+		}
+		return protoreflect.ValueOfMessage(filledMessage(d, 0))
+	}
 	for i := 0; i < md.Fields().Len(); i++ {
 		fd := md.Fields().Get(i)
 		for k := 0; k < 4; k++ {
@@ -458,7 +550,7 @@ func singleFieldMessages(md protoreflect.MessageDescriptor, emptyNested bool, yi
 				for j := 0; j < k; j++ {
 					var v protoreflect.Value
 					if fd.MapValue().Kind() == protoreflect.MessageKind {
-						v = nested(fd.MapValue().Message())
+						v = nestedK(fd.MapValue().Message(), j+k)
 					} else {
 						v = boundary(fd.MapValue(), j+k)
 					}
@@ -468,16 +560,16 @@ func singleFieldMessages(md protoreflect.MessageDescriptor, emptyNested bool, yi
 				l := m.Mutable(fd).List()
 				for j := 0; j < k; j++ {
 					if fd.Kind() == protoreflect.MessageKind {
-						l.Append(nested(fd.Message()))
+						l.Append(nestedK(fd.Message(), j+k))
 					} else {
 						l.Append(boundary(fd, j+k))
 					}
 				}
 			case fd.Kind() == protoreflect.MessageKind:
-				if k == 0 {
+				if k == 0 || k == 3 {
 					continue
 				}
-				m.Set(fd, nested(fd.Message()))
+				m.Set(fd, nestedK(fd.Message(), k))
 			default:
 				m.Set(fd, boundary(fd, k))
 			}
@@ -552,7 +644,7 @@ func (rn *runner) runMarshal(ts []*Target, n int) {
 					// a message that carries unknown fields (read from a newer writer): they count and are written
 					var unk []rec
 					for k := 1 + rn.r.Intn(2); k > 0; k-- {
-						unk = append(unk, randUnknown(rn.r, md, false))
+						unk = append(unk, t.unknownViaRuntime(rn.r, md))
 					}
 					ref.SetUnknown(emitRecs(unk))
 					label = "random+unknown"
@@ -727,55 +819,69 @@ func splitPacked(fd protoreflect.FieldDescriptor, payload []byte) [][]byte {
 
 var unknownNumbers = []protowire.Number{900, 19000 - 1, 1 << 21, 1 << 26, 1<<29 - 1}
 
-func randUnknown(r *prng.Rng, md protoreflect.MessageDescriptor, inRange bool) rec {
-	// a number the schema declares (field or extension range) is not "unknown": a conforming writer
-	// never emits it with a foreign wire type
-	free := func(n protowire.Number) bool {
-		return md == nil || (md.Fields().ByNumber(n) == nil && !md.ExtensionRanges().Has(n))
+// undefinedNumber: the schema of md does not define field number n — it is neither a declared field nor the
+// number of an extension declared for md. With inRanges=false every number inside an extension range counts as
+// defined (used where a value travels through a runtime's own decoder, which may keep such a field in its
+// extension store instead of the unknown bytes).
+func undefinedNumber(md protoreflect.MessageDescriptor, n protowire.Number, inRanges bool) bool {
+	if n < 1 || n > 1<<29-1 || (n >= 19000 && n <= 19999) {
+		return false
 	}
-	num := protowire.Number(0)
-	// … but a number INSIDE an extension range that no extension of the file uses is exactly what a program built
-	// against an older schema receives when a newer one declares another extension: unknown to the generated code and
-	// to the reference alike (its resolver knows the file's extensions only), to be retained like any unknown field
-	// (only in wire inputs handed to the generated Unmarshal: a Go message POPULATED through its runtime's own decoder holds
-	// such a field in the runtime's extension store, which is finding B33's territory)
-	if inRange && md != nil && md.ExtensionRanges().Len() > 0 && r.Chance(1, 3) {
-		used := map[protowire.Number]bool{}
-		for _, x := range knownExtensions(md) {
-			used[x.Number()] = true
-		}
-		rg := md.ExtensionRanges().Get(r.Intn(md.ExtensionRanges().Len()))
-		for _, c := range []protowire.Number{rg[0], rg[1] - 1, rg[0] + 1, rg[1] - 2, rg[0] + 57, (rg[0] + rg[1]) / 2} {
-			if c >= rg[0] && c < rg[1] && !used[c] && md.Fields().ByNumber(c) == nil {
-				num = c
-				break
-			}
-		}
+	if md == nil {
+		return true
 	}
-	if num != 0 {
-		return randUnknownAt(r, num)
+	if md.Fields().ByNumber(n) != nil || knownExtNums[md.FullName()][n] {
+		return false
 	}
-	start := r.Intn(len(unknownNumbers))
-	for i := range unknownNumbers {
-		if c := unknownNumbers[(start+i)%len(unknownNumbers)]; free(c) {
-			num = c
-			break
-		}
-	}
-	for c := protowire.Number(1); num == 0 && c < 5000; c++ {
-		if free(c) {
-			num = c
-		}
-	}
-	if num == 0 {
-		num = 18999 // every number is declared: cannot happen with the corpus schemas
-	}
-	return randUnknownAt(r, num)
+	return inRanges || !md.ExtensionRanges().Has(n)
 }
 
-// randUnknownAt: a field of a random wire type at the given number
-func randUnknownAt(r *prng.Rng, num protowire.Number) rec {
-	switch r.Intn(4) {
+// nearNumbers: the undefined numbers next to something the schema defines — N-1 and N+1 of every declared field
+// and every declared extension N, and both sides of both ends of every extension range (an off-by-one in a
+// number comparison, `<=` for `<`, an inclusive upper bound, shows on exactly these).
+func nearNumbers(md protoreflect.MessageDescriptor, inRanges bool) []protowire.Number {
+	if md == nil {
+		return nil
+	}
+	seen := map[protowire.Number]bool{}
+	var out []protowire.Number
+	add := func(n protowire.Number) {
+		if !seen[n] && undefinedNumber(md, n, inRanges) {
+			seen[n] = true
+			out = append(out, n)
+		}
+	}
+	for i := 0; i < md.Fields().Len(); i++ {
+		n := md.Fields().Get(i).Number()
+		add(n - 1)
+		add(n + 1)
+	}
+	var xs []protowire.Number
+	for n := range knownExtNums[md.FullName()] {
+		xs = append(xs, n)
+	}
+	sort.Slice(xs, func(a, b int) bool { return xs[a] < xs[b] })
+	for _, n := range xs {
+		add(n - 1)
+		add(n + 1)
+	}
+	for i := 0; i < md.ExtensionRanges().Len(); i++ {
+		r := md.ExtensionRanges().Get(i) // [r[0], r[1])
+		add(r[0] - 1)
+		add(r[0])
+		add(r[1] - 1)
+		add(r[1])
+	}
+	return out
+}
+
+// unknownValue: a well-formed field with number num that the schema does not define, of one of the four wire
+// types (which < 0: any).
+func unknownValue(r *prng.Rng, num protowire.Number, which int) rec {
+	if which < 0 {
+		which = r.Intn(4)
+	}
+	switch which % 4 {
 	case 0:
 		return rec{num, protowire.VarintType, protowire.AppendVarint(nil, r.U64Interesting())}
 	case 1:
@@ -786,6 +892,50 @@ func randUnknownAt(r *prng.Rng, num protowire.Number) rec {
 		// lengths around the one-byte / two-byte boundary of the length prefix too
 		return lenRec(num, r.Bytes([]int{0, 1, 2, 3, 4, 5, 127, 128, 129, 255, 256, 300}[r.Intn(12)]))
 	}
+}
+
+// unknownNumber picks a field number the schema of md does not define: half of the time (when there is one)
+// a number adjacent to a declared field / extension / extension-range end, otherwise one of the far numbers.
+func unknownNumber(r *prng.Rng, md protoreflect.MessageDescriptor, inRanges bool) protowire.Number {
+	if near := nearNumbers(md, inRanges); len(near) > 0 && r.Chance(1, 2) {
+		return near[r.Intn(len(near))]
+	}
+	start := r.Intn(len(unknownNumbers))
+	for i := range unknownNumbers {
+		if c := unknownNumbers[(start+i)%len(unknownNumbers)]; undefinedNumber(md, c, inRanges) {
+			return c
+		}
+	}
+	for c := protowire.Number(1); c < 5000; c++ {
+		if undefinedNumber(md, c, inRanges) {
+			return c
+		}
+	}
+	return 18999 // every number is declared: cannot happen with the corpus schemas
+}
+
+// randUnknown: a field the schema of md does not define (a declared field or declared extension is not
+// "unknown": a conforming writer never emits it with a foreign wire type); numbers inside an extension range that
+// no declared extension uses are included.
+func randUnknown(r *prng.Rng, md protoreflect.MessageDescriptor) rec {
+	return unknownValue(r, unknownNumber(r, md, true), -1)
+}
+
+// unknownViaRuntime: an unknown field for a value that reaches the generated code through the runtime's own
+// decoder (populate / deep copies). Gogo's table-driven decoder keeps a field whose number lies inside an
+// extension range in XXX_InternalExtensions, not in XXX_unrecognized — such a value is not one the generated
+// Unmarshal can produce — so for Gogo the number stays outside the extension ranges.
+func (t *Target) unknownViaRuntime(r *prng.Rng, md protoreflect.MessageDescriptor) rec {
+	if t.Runtime == "gogo" {
+		return randUnknownOutsideRanges(r, md)
+	}
+	return randUnknown(r, md)
+}
+
+// randUnknownOutsideRanges: the same, but never a number inside an extension range (for values that are
+// handed to a runtime's own decoder before the generated code sees them).
+func randUnknownOutsideRanges(r *prng.Rng, md protoreflect.MessageDescriptor) rec {
+	return unknownValue(r, unknownNumber(r, md, false), -1)
 }
 
 // variant rewrites a valid encoding into another legal encoding of a message of the same schema.
@@ -825,9 +975,11 @@ func variant(r *prng.Rng, md protoreflect.MessageDescriptor, b []byte, depth int
 							break
 						}
 					}
-				case 3: // an unknown field inside the entry
+				case 3: // an unknown field inside the entry: next to the value's number or far away, any wire type, any position
 					if withUnknown {
-						ers = append(ers, rec{7, protowire.VarintType, []byte{1}})
+						u := unknownValue(r, []protowire.Number{3, 7, 1<<29 - 1}[r.Intn(3)], -1)
+						pos := r.Intn(len(ers) + 1)
+						ers = append(ers[:pos:pos], append([]rec{u}, ers[pos:]...)...)
 						applied = append(applied, "map-entry-unknown-field")
 					}
 				case 4: // key, another value, value: the LAST value counts (scalar values only: messages merge)
@@ -928,7 +1080,7 @@ func variant(r *prng.Rng, md protoreflect.MessageDescriptor, b []byte, depth int
 	if withUnknown {
 		for n := r.Intn(3); n > 0; n-- {
 			pos := r.Intn(len(out) + 1)
-			out = append(out[:pos:pos], append([]rec{randUnknown(r, md, true)}, out[pos:]...)...)
+			out = append(out[:pos:pos], append([]rec{randUnknown(r, md)}, out[pos:]...)...)
 			applied = append(applied, "unknown-field")
 		}
 	}
@@ -972,6 +1124,182 @@ func variant(r *prng.Rng, md protoreflect.MessageDescriptor, b []byte, depth int
 		}
 	}
 	return emitRecs(out), applied
+}
+
+// directedUnknown yields valid encodings of message type name that put fields the schema does not define where
+// their handling is most likely to go wrong:
+//   - nothing but unknown fields (on top of the required fields, if any): one field of each wire type, and several;
+//   - every declared field and every declared extension N in turn, set, with unknown fields numbered N+1 and N-1
+//     (where the schema leaves them undefined) immediately BEFORE and immediately AFTER it, and between two
+//     occurrences of N;
+//   - the undefined numbers on both sides of both ends of every extension range, before and after a set extension.
+func (rn *runner) directedUnknown(t *Target, name string, yield func(enc []byte, applied []string)) {
+	md := t.desc(name)
+	r := rn.r
+	base := func() *dynamicpb.Message {
+		if hasRequired(md) {
+			return minimalMessage(md)
+		}
+		return dynamicpb.NewMessage(md)
+	}
+	baseRecs, _ := parseRecs(refBytes(base()))
+	only := "only-unknown-fields"
+	if len(baseRecs) > 0 {
+		only = "required-fields-and-unknown-fields-only"
+	}
+	for k := 0; k < 4; k++ {
+		u := unknownValue(r, unknownNumber(r, md, true), k)
+		yield(emitRecs(append(append([]rec{}, baseRecs...), u)), []string{only, "one-unknown-field"})
+	}
+	{
+		var before, after []rec
+		for k := 2 + r.Intn(3); k > 0; k-- {
+			u := unknownValue(r, unknownNumber(r, md, true), -1)
+			if r.Bool() {
+				before = append(before, u)
+			} else {
+				after = append(after, u)
+			}
+		}
+		yield(emitRecs(append(append(before, baseRecs...), after...)), []string{only, "several-unknown-fields"})
+	}
+	// neighbours of a declared number
+	around := func(label string, m *dynamicpb.Message, n protowire.Number) {
+		lo, hi := undefinedNumber(md, n-1, true), undefinedNumber(md, n+1, true)
+		loNum, hiNum := n-1, n+1
+		how := "unknown-neighbour-numbers-before-and-after"
+		if !lo && !hi {
+			// both neighbouring numbers are declared: the POSITION next to field N still matters (an arm that leaves
+			// the decode loop its own way, a run of unknown fields closed late) — any undefined number will do
+			hi, hiNum = true, unknownNumber(r, md, true)
+			how = "unknown-fields-immediately-before-and-after"
+		}
+		recs, ok := parseRecs(refBytes(m))
+		if !ok {
+			return
+		}
+		first, second, last := -1, -1, -1
+		for i, x := range recs {
+			if x.num == n {
+				if first < 0 {
+					first = i
+				} else if second < 0 {
+					second = i
+				}
+				last = i
+			}
+		}
+		if first < 0 {
+			return
+		}
+		var out []rec
+		for i, x := range recs {
+			if i == first {
+				if hi {
+					out = append(out, unknownValue(r, hiNum, -1))
+				}
+				if lo {
+					out = append(out, unknownValue(r, loNum, -1))
+				}
+			}
+			if i == second && second > 0 {
+				if hi {
+					out = append(out, unknownValue(r, hiNum, -1))
+				} else {
+					out = append(out, unknownValue(r, loNum, -1))
+				}
+			}
+			out = append(out, x)
+			if i == last {
+				if lo {
+					out = append(out, unknownValue(r, loNum, -1))
+				}
+				if hi {
+					out = append(out, unknownValue(r, hiNum, -1))
+				}
+			}
+		}
+		yield(emitRecs(out), []string{label, how})
+	}
+	for i := 0; i < md.Fields().Len(); i++ {
+		fd := md.Fields().Get(i)
+		m := base()
+		switch {
+		case fd.IsMap():
+			var v protoreflect.Value
+			if fd.MapValue().Message() != nil {
+				v = protoreflect.ValueOfMessage(minimalMessage(fd.MapValue().Message()))
+			} else {
+				v = boundary(fd.MapValue(), 1)
+			}
+			m.Mutable(fd).Map().Set(boundary(fd.MapKey(), 1).MapKey(), v)
+			if fd.MapKey().Kind() != protoreflect.BoolKind {
+				m.Mutable(fd).Map().Set(boundary(fd.MapKey(), 2).MapKey(), v)
+			}
+		case fd.IsList():
+			for j := 1; j <= 2; j++ {
+				if fd.Message() != nil {
+					m.Mutable(fd).List().Append(protoreflect.ValueOfMessage(minimalMessage(fd.Message())))
+				} else {
+					m.Mutable(fd).List().Append(boundary(fd, j))
+				}
+			}
+		case fd.Message() != nil:
+			m.Set(fd, protoreflect.ValueOfMessage(minimalMessage(fd.Message())))
+		default:
+			m.Set(fd, boundary(fd, 1))
+		}
+		around("field "+string(fd.Name()), m, fd.Number())
+	}
+	var exts []protoreflect.ExtensionType
+	t.extTypes().RangeExtensionsByMessage(md.FullName(), func(xt protoreflect.ExtensionType) bool {
+		exts = append(exts, xt)
+		return true
+	})
+	sort.Slice(exts, func(a, b int) bool { return exts[a].TypeDescriptor().Number() < exts[b].TypeDescriptor().Number() })
+	setExt := func(m *dynamicpb.Message, xt protoreflect.ExtensionType) bool {
+		xd := xt.TypeDescriptor()
+		switch {
+		case xd.IsList() || xd.IsMap():
+			return false
+		case xd.Message() != nil:
+			m.Set(xd, protoreflect.ValueOfMessage(minimalMessage(xd.Message())))
+		default:
+			m.Set(xd, boundary(xd, 1))
+		}
+		return true
+	}
+	for _, xt := range exts {
+		m := base()
+		if setExt(m, xt) {
+			around("extension "+string(xt.TypeDescriptor().Name()), m, xt.TypeDescriptor().Number())
+		}
+	}
+	// both sides of both ends of every extension range
+	for i := 0; i < md.ExtensionRanges().Len(); i++ {
+		rg := md.ExtensionRanges().Get(i)
+		var ends []rec
+		for _, n := range []protowire.Number{rg[0] - 1, rg[0], rg[1] - 1, rg[1]} {
+			if undefinedNumber(md, n, true) {
+				ends = append(ends, unknownValue(r, n, -1))
+			}
+		}
+		if len(ends) == 0 {
+			continue
+		}
+		m := base()
+		for _, xt := range exts {
+			if n := xt.TypeDescriptor().Number(); n >= rg[0] && n < rg[1] && setExt(m, xt) {
+				break
+			}
+		}
+		recs, _ := parseRecs(refBytes(m))
+		out := append(append([]rec{}, ends...), recs...)
+		for j := len(ends) - 1; j >= 0; j-- {
+			out = append(out, unknownValue(r, ends[j].num, -1))
+		}
+		yield(emitRecs(out), []string{fmt.Sprintf("extension range %d to %d", rg[0], rg[1]-1), "unknown-numbers-at-the-range-ends-before-and-after"})
+	}
 }
 
 // otherValue: a record of the same number and wire type as x carrying a different value.
@@ -1093,7 +1421,20 @@ func (rn *runner) unmarshalCase(t *Target, name string, enc []byte, applied []st
 			}
 			if prop == "C07" {
 				if bytes.Equal(gd.GetUnknown(), want.GetUnknown()) {
-					break // not an unknown-field matter
+					// the same at the top level; one level down and deeper the comparison is meaningful only where
+					// "replace" and "merge" of a repeated singular message coincide (open finding B9 otherwise)
+					// … as far as a trip through the runtime's encoder and the reference decoder shows: bytes of a DECLARED
+					// field kept among the unknown bytes are decoded again on that trip. What the message itself holds:
+					if raw, ok := rawUnknown(m); ok && !bytes.Equal(raw, want.GetUnknown()) {
+						Violation("C07", "unmarshal", "unknown-set-differs", "after generated Unmarshal() the message holds, as unknown bytes, something else than the fields the schema does not define (bytes of a declared field were retained as well, or unknown bytes were lost or reordered)",
+							desc, hx(want.GetUnknown()), hx(raw))
+						break
+					}
+					if _, mergeSensitive := lastWins(md, enc); mergeSensitive || gd == nil || t.unknownTree(gd) == t.unknownTree(want) {
+						break // not an unknown-field matter
+					}
+					Violation("C07", "unmarshal", "unknown-fields-not-retained-by-unmarshal/nested-message", "after generated Unmarshal() a NESTED message does not hold the unknown fields the input carries for it", desc, trunc(t.unknownTree(want), 300), trunc(t.unknownTree(gd), 300))
+					break
 				}
 				sig = "unknown-fields-not-retained-by-unmarshal"
 			}
@@ -1114,7 +1455,10 @@ func (rn *runner) unmarshalCase(t *Target, name string, enc []byte, applied []st
 		}
 		switch rn.prop {
 		case "C07":
-			rn.unknownRoundTrip(t, name, m, want, desc)
+			// (below the top level the comparison is meaningful only where "replace" and "merge" of a repeated singular
+			// message coincide: open finding B9 otherwise)
+			_, mergeSensitive := lastWins(md, enc)
+			rn.unknownRoundTrip(t, name, m, want, !mergeSensitive, desc, buf)
 		case "C10":
 			rn.clobber(t, name, m, buf, got, desc)
 		}
@@ -1192,27 +1536,294 @@ func dedup(xs []string) []string {
 	return out
 }
 
-// C07: Marshal after Unmarshal must re-emit the unknown fields byte for byte, and Size must count them.
-func (rn *runner) unknownRoundTrip(t *Target, name string, m interface{}, want *dynamicpb.Message, desc map[string]interface{}) {
-	var b []byte
-	var err error
-	var size int
-	if p := safeCall(func() { size = m.(FM).Size(); b, err = m.(FM).Marshal() }); p != "" || err != nil {
-		return // C04's business
-	}
-	back, derr := t.toDyn(name, b)
-	if derr != nil {
-		if len(want.GetUnknown()) > 0 {
-			Violation("C07", "unknown", "unknown-fields-lost-on-marshal/output-not-parseable", "the bytes Marshal() returns after Unmarshal() of an input with unknown fields cannot be parsed: the unknown fields are not re-emitted", desc, hx(want.GetUnknown()), trunc(hx(b), 300)+" ("+derr.Error()+")")
+// C07: Marshal after Unmarshal must re-emit the unknown fields byte for byte, and Size must count them — and keep
+// doing so whatever the CALLER does meanwhile with the buffers that are the caller's: the input buffer it handed to
+// Unmarshal (safe mode), the result of Marshal (overwritten, appended to), the destination of MarshalTo (held other
+// data before); operations on the message that do not concern unknown fields (csproto.SetExtension / ClearExtension
+// of a DECLARED extension) must leave them alone; and a second Unmarshal into the same message leaves exactly the
+// second input's unknown fields.
+// unknownTree renders the unknown fields a message holds at every level: one "path=hex" item per message value
+// (top level, singular / repeated / map-valued message fields, recursively) that holds any.
+func (t *Target) unknownTree(m protoreflect.Message) string {
+	// only message types this target has generated code for: a foreign message (well-known type, a type of an
+	// imported file that was not generated) is decoded and written by its runtime, which may keep and order its
+	// unknown fields its own way
+	generated := func(md protoreflect.MessageDescriptor) bool {
+		pkg := string(t.file.Package()) + "."
+		if !strings.HasPrefix(string(md.FullName()), pkg) {
+			return false
 		}
+		_, ok := t.Messages[strings.TrimPrefix(string(md.FullName()), pkg)]
+		return ok
+	}
+	var items []string
+	var walk func(m protoreflect.Message, path string, depth int)
+	walk = func(m protoreflect.Message, path string, depth int) {
+		if u := m.GetUnknown(); len(u) > 0 {
+			items = append(items, path+"="+hx(u))
+		}
+		if depth > 8 {
+			return
+		}
+		type sub struct {
+			path string
+			m    protoreflect.Message
+		}
+		var subs []sub
+		m.Range(func(fd protoreflect.FieldDescriptor, v protoreflect.Value) bool {
+			if fd.Message() == nil && !(fd.IsMap() && fd.MapValue().Message() != nil) {
+				return true
+			}
+			if fd.IsMap() {
+				if vm := fd.MapValue().Message(); vm == nil || !generated(vm) {
+					return true
+				}
+			} else if !generated(fd.Message()) {
+				return true
+			}
+			p := fmt.Sprintf("%s/%d", path, fd.Number())
+			switch {
+			case fd.IsMap():
+				if fd.MapValue().Message() == nil {
+					return true
+				}
+				v.Map().Range(func(k protoreflect.MapKey, mv protoreflect.Value) bool {
+					subs = append(subs, sub{fmt.Sprintf("%s{%v}", p, k.Interface()), mv.Message()})
+					return true
+				})
+			case fd.IsList():
+				for i := 0; i < v.List().Len(); i++ {
+					subs = append(subs, sub{fmt.Sprintf("%s[%d]", p, i), v.List().Get(i).Message()})
+				}
+			default:
+				subs = append(subs, sub{p, v.Message()})
+			}
+			return true
+		})
+		sort.Slice(subs, func(a, b int) bool { return subs[a].path < subs[b].path })
+		for _, x := range subs {
+			walk(x.m, x.path, depth+1)
+		}
+	}
+	walk(m, "", 0)
+	return strings.Join(items, " ")
+}
+
+func (rn *runner) unknownRoundTrip(t *Target, name string, m interface{}, want *dynamicpb.Message, deep bool, desc map[string]interface{}, input []byte) {
+	wantUnk := append([]byte{}, want.GetUnknown()...)
+	// deep: also compare the unknown fields of the nested messages (nil: top level only)
+	var wantTree *string
+	if deep {
+		s := t.unknownTree(want)
+		wantTree = &s
+	}
+	var log []string
+	log = append(log, "Unmarshal(input)")
+	hdesc := func() map[string]interface{} {
+		d := map[string]interface{}{"history": strings.Join(log, " ; ")}
+		for k, v := range desc {
+			d[k] = v
+		}
+		return d
+	}
+	// marshalAndCompare: the unknown fields the reference finds in what Marshal() returns now
+	marshalAndCompare := func(sig, what string, expect []byte, expectTree *string) ([]byte, bool) {
+		var b []byte
+		var err error
+		var size int
+		if p := safeCall(func() { size = m.(FM).Size(); b, err = m.(FM).Marshal() }); p != "" || err != nil {
+			return nil, false // C04's business
+		}
+		log = append(log, "Size(); Marshal()")
+		back, derr := t.toDyn(name, b)
+		if derr != nil {
+			if len(expect) > 0 {
+				Violation("C07", "unknown", sig+"/output-not-parseable", "the bytes Marshal() returns cannot be parsed: the unknown fields are not re-emitted ("+what+")", hdesc(), hx(expect), trunc(hx(b), 300)+" ("+derr.Error()+")")
+			}
+			return b, false
+		}
+		if !bytes.Equal(back.GetUnknown(), expect) {
+			Violation("C07", "unknown", sig, "unknown fields present in the input are not re-emitted byte for byte by the next Marshal() ("+what+")", hdesc(), hx(expect), hx(back.GetUnknown()))
+			return b, false
+		}
+		if expectTree != nil {
+			if got := t.unknownTree(back); got != *expectTree {
+				Violation("C07", "unknown", sig+"/nested-message", "unknown fields the input carries for a NESTED message are not re-emitted byte for byte by the next Marshal() ("+what+")", hdesc(), trunc(*expectTree, 300), trunc(got, 300))
+				return b, false
+			}
+		}
+		if (len(expect) > 0 || (expectTree != nil && *expectTree != "")) && size != len(b) {
+			Violation("C07", "unknown", "unknown-fields-not-counted-by-size", "Size() does not account for the unknown fields", hdesc(), fmt.Sprint(len(b)), fmt.Sprint(size))
+			return b, false
+		}
+		return b, true
+	}
+	if !t.Unsafe && len(input) > 0 {
+		// safe mode: the input buffer is the caller's again as soon as Unmarshal returns
+		for i := range input {
+			input[i] = 0xff
+		}
+		log = append(log, "overwrite the input buffer with 0xff")
+	}
+	b, ok := marshalAndCompare("unknown-fields-lost-on-marshal", "first Marshal after Unmarshal", wantUnk, wantTree)
+	if !ok {
+		Count("unknown", fmt.Sprint(desc), "round-trip-failed", len(b), len(wantUnk) > 0)
 		return
 	}
-	if !bytes.Equal(back.GetUnknown(), want.GetUnknown()) {
-		Violation("C07", "unknown", "unknown-fields-lost-on-marshal", "unknown fields present in the input are not re-emitted byte for byte by the next Marshal()", desc, hx(want.GetUnknown()), hx(back.GetUnknown()))
-	} else if len(want.GetUnknown()) > 0 && size != len(b) {
-		Violation("C07", "unknown", "unknown-fields-not-counted-by-size", "Size() does not account for the unknown fields", desc, fmt.Sprint(len(b)), fmt.Sprint(size))
+	// the result belongs to the caller: overwrite it, append a trailer to it (writes into its spare capacity)
+	first := append([]byte{}, b...)
+	for i := range b {
+		b[i] = 0xff
 	}
-	Count("unknown", fmt.Sprint(desc), "round-trip", len(b), len(want.GetUnknown()) > 0)
+	b = append(b, bytes.Repeat([]byte{0xee}, 24)...)
+	log = append(log, "overwrite the bytes Marshal() returned with 0xff and append 24 bytes to them")
+	if raw, rok := rawUnknown(m); rok && !bytes.Equal(raw, wantUnk) {
+		// (the next Marshal, below, shows the consequence)
+		Violation("C07", "unknown", "unknown-fields-corrupted/marshal-result-shares-memory-with-the-message", "after the caller wrote into the buffer Marshal() returned, the unknown bytes held by the message changed: the next Marshal() cannot re-emit them", hdesc(), hx(wantUnk), hx(raw))
+	}
+	second, ok := marshalAndCompare("unknown-fields-lost-on-marshal/after-caller-reused-earlier-result", "second Marshal, after the caller overwrote and extended the buffer the first one returned", wantUnk, wantTree)
+	if !ok {
+		Count("unknown", fmt.Sprint(desc), "round-trip-failed", len(second), len(wantUnk) > 0)
+		return
+	}
+	// MarshalTo into a buffer that held other data before
+	{
+		var dest []byte
+		var terr error
+		if p := safeCall(func() {
+			sz := m.(FM).Size()
+			scratch := bytes.Repeat([]byte{0xa5}, sz+8)
+			dest = scratch[:sz]
+			terr = m.(FM).MarshalTo(dest)
+		}); p == "" && terr == nil {
+			log = append(log, "MarshalTo(buffer pre-filled with 0xa5)")
+			back, derr := t.toDyn(name, dest)
+			if derr != nil || !bytes.Equal(back.GetUnknown(), wantUnk) || (wantTree != nil && t.unknownTree(back) != *wantTree) {
+				got := "not parseable: " + trunc(hx(dest), 300)
+				if derr == nil {
+					got = t.unknownTree(back)
+				}
+				Violation("C07", "unknown", "unknown-fields-lost-on-marshal/marshalto-dirty-buffer", "unknown fields are not re-emitted byte for byte by MarshalTo() into a buffer that held other data before", hdesc(), hx(wantUnk), got)
+				Count("unknown", fmt.Sprint(desc), "round-trip-failed", len(dest), len(wantUnk) > 0)
+				return
+			}
+		}
+	}
+	// operations on DECLARED extensions do not concern the fields the schema does not define
+	if xs := t.extsOf(name); len(xs) > 0 && rn.r.Chance(2, 3) {
+		x := xs[rn.r.Intn(len(xs))]
+		var has bool
+		opOK := false
+		switch rn.r.Intn(4) {
+		case 3:
+			// ClearAllExtensions: whatever it does to undecoded fields INSIDE the extension ranges (the golang/protobuf v1
+			// API drops them, google.golang.org/protobuf keeps them), a field whose number lies outside every range is no
+			// extension at all and must stay
+			md := t.desc(name)
+			outside := func(raw []byte) []byte {
+				rs, ok := parseRecs(raw)
+				if !ok {
+					return raw
+				}
+				var keep []rec
+				for _, x := range rs {
+					if !md.ExtensionRanges().Has(x.num) {
+						keep = append(keep, x)
+					}
+				}
+				return emitRecs(keep)
+			}
+			if p := safeCall(func() { csproto.ClearAllExtensions(m) }); p == "" {
+				log = append(log, "csproto.ClearAllExtensions")
+				var b []byte
+				var err error
+				if p := safeCall(func() { b, err = m.(FM).Marshal() }); p == "" && err == nil {
+					log = append(log, "Marshal()")
+					if back, derr := t.toDyn(name, b); derr != nil || !bytes.Equal(outside(back.GetUnknown()), outside(wantUnk)) {
+						got := "not parseable: " + trunc(hx(b), 300)
+						if derr == nil {
+							got = hx(outside(back.GetUnknown()))
+						}
+						Violation("C07", "unknown", "unknown-fields-lost/clear-all-extensions-dropped-a-field-outside-the-extension-ranges", "csproto.ClearAllExtensions removed unknown fields whose numbers lie outside every extension range of the message type (they are not extensions): the next Marshal() does not re-emit them", hdesc(), hx(outside(wantUnk)), got)
+						Count("unknown", fmt.Sprint(desc), "lost", len(first), true)
+						return
+					}
+				}
+				// from here on only the fields outside the ranges are known to be retained
+				wantUnk = outside(wantUnk)
+				if raw, rok := rawUnknown(m); rok {
+					wantUnk = append([]byte{}, raw...)
+				}
+			}
+		case 0:
+			if v := t.extValue(rn.r, x); v != nil {
+				var err error
+				if p := safeCall(func() { err = csproto.SetExtension(m, x.Desc, v) }); p == "" && err == nil {
+					log = append(log, fmt.Sprintf("csproto.SetExtension(%s (%d), %s)", x.Name, x.Num, trunc(valString(v), 40)))
+					opOK = true
+				}
+			}
+		case 1:
+			if p := safeCall(func() { csproto.ClearExtension(m, x.Desc) }); p == "" {
+				log = append(log, fmt.Sprintf("csproto.ClearExtension(%s (%d))", x.Name, x.Num))
+				opOK = true
+			}
+		default:
+			if p := safeCall(func() { has = csproto.HasExtension(m, x.Desc); csproto.GetExtension(m, x.Desc) }); p == "" {
+				log = append(log, fmt.Sprintf("csproto.HasExtension/GetExtension(%s (%d)) = %v", x.Name, x.Num, has))
+				opOK = true
+			}
+		}
+		if opOK {
+			if raw, rok := rawUnknown(m); rok && !bytes.Equal(raw, wantUnk) {
+				Violation("C07", "unknown", "unknown-fields-lost/extension-accessor-of-a-declared-extension", "an accessor call for a DECLARED extension changed the unknown bytes the message retains (fields with other numbers)", hdesc(), hx(wantUnk), hx(raw))
+				Count("unknown", fmt.Sprint(desc), "lost", len(first), true)
+				return
+			}
+			if _, ok := marshalAndCompare("unknown-fields-lost-on-marshal/after-extension-accessor", "Marshal after an accessor call for a declared extension", wantUnk, nil); !ok {
+				Count("unknown", fmt.Sprint(desc), "round-trip-failed", len(first), len(wantUnk) > 0)
+				return
+			}
+		}
+	}
+	// a second input into the same message: exactly ITS unknown fields from now on
+	if rn.r.Chance(1, 2) {
+		md := t.desc(name)
+		var base []rec
+		if hasRequired(md) {
+			base, _ = parseRecs(refBytes(minimalMessage(md)))
+		}
+		var us []rec
+		for k := rn.r.Intn(3); k > 0; k-- {
+			us = append(us, randUnknown(rn.r, md))
+		}
+		in2 := emitRecs(append(append([]rec{}, base...), us...))
+		want2 := dynamicpb.NewMessage(md)
+		if err := (proto.UnmarshalOptions{Resolver: t.extTypes(), AllowPartial: true}).Unmarshal(in2, want2); err == nil {
+			var uerr error
+			buf2 := append([]byte{}, in2...)
+			if p := safeCall(func() { uerr = m.(FM).Unmarshal(buf2) }); p == "" && uerr == nil {
+				log = append(log, "Unmarshal("+hx(in2)+") into the same message")
+				tree2 := t.unknownTree(want2)
+				if _, ok := marshalAndCompare("unknown-fields-of-an-earlier-input-kept-or-new-ones-lost", "Marshal after a second Unmarshal into the same message", want2.GetUnknown(), &tree2); !ok {
+					Count("unknown", fmt.Sprint(desc), "round-trip-failed", len(in2), true)
+					return
+				}
+			}
+		}
+	}
+	Count("unknown", fmt.Sprint(desc), "round-trip", len(first), len(wantUnk) > 0)
+}
+
+// extsOf: the generated extension descriptors declared for message type name.
+func (t *Target) extsOf(name string) []ExtVar {
+	var out []ExtVar
+	for _, x := range t.Exts {
+		if x.Extendee == name {
+			out = append(out, x)
+		}
+	}
+	return out
 }
 
 // C10: the decoded message must not change when the caller overwrites / reuses the input buffer.
@@ -1354,6 +1965,9 @@ func (rn *runner) runUnmarshal(ts []*Target, n int) {
 						rn.unmarshalCase(t, name, v, append([]string{label}, applied...), false)
 					}
 				})
+			}
+			if rn.prop == "C06" || rn.prop == "C07" || rn.prop == "C08" || rn.prop == "C10" {
+				rn.directedUnknown(t, name, func(enc []byte, applied []string) { rn.unmarshalCase(t, name, enc, applied, false) })
 			}
 			for i := 0; i < n; i++ {
 				ref := randMessage(rn.r, md, genOpts{requiredAlways: rn.prop != "C17", exts: t.extTypes()})
@@ -1658,7 +2272,7 @@ func (rn *runner) history(t *Target, name string, steps int) {
 			what := "other"
 			if rn.r.Bool() {
 				// … written by a newer schema: carries a field this schema does not define
-				other = append(other, emitRecs([]rec{randUnknown(rn.r, md, false)})...)
+				other = append(other, emitRecs([]rec{t.unknownViaRuntime(rn.r, md)})...)
 				what = "other+unknown field"
 			}
 			switch rn.r.Intn(3) {
